@@ -1,6 +1,8 @@
 //! E3a — direct drivers of conjure-http's runtime (no generated code): C11, C07, C06, C18.
+mod c06;
 mod c07;
 mod c11;
+mod script;
 
 use vcommon::{Args, Report};
 
@@ -8,6 +10,7 @@ fn main() {
     let args = Args::parse();
     vcommon::quiet_panics();
     let report: Report = match args.property.as_str() {
+        "C06" => c06::run(&args),
         "C07" => c07::run(&args),
         "C11" => c11::run(&args),
         other => panic!("httpdirect: unknown property {}", other),
